@@ -225,6 +225,43 @@ func (e *Effects) roots(v ssa.Value, seen map[ssa.Value]bool, depth int) []Root 
 				return []Root{{Kind: RootNil}}
 			}
 			return out
+		case *ssa.FreeVar:
+			// a load through a captured variable: what the enclosing function stored into the
+			// captured cell (a captured parameter is copied into a cell by the parent)
+			fn := a.Parent()
+			idx := -1
+			for i, fv := range fn.FreeVars {
+				if fv == a {
+					idx = i
+				}
+			}
+			par := fn.Parent()
+			var out []Root
+			if par != nil && idx >= 0 {
+				for _, b := range par.Blocks {
+					for _, in := range b.Instrs {
+						mc, ok := in.(*ssa.MakeClosure)
+						if !ok || mc.Fn != ssa.Value(fn) || idx >= len(mc.Bindings) {
+							continue
+						}
+						if cell, ok := mc.Bindings[idx].(*ssa.Alloc); ok {
+							if refs := cell.Referrers(); refs != nil {
+								for _, ref := range *refs {
+									if st, ok := ref.(*ssa.Store); ok && st.Addr == ssa.Value(cell) {
+										out = append(out, e.roots(st.Val, seen, depth+1)...)
+									}
+								}
+							}
+						} else {
+							out = append(out, hop(e.roots(mc.Bindings[idx], seen, depth+1), "→")...)
+						}
+					}
+				}
+			}
+			if out == nil {
+				return hop(e.roots(x.X, seen, depth+1), "→")
+			}
+			return out
 		default:
 			return hop(e.roots(x.X, seen, depth+1), "→")
 		}
